@@ -169,15 +169,22 @@ def _provenance(col, prog, crate, R):
     writers = _priority_writers(prog, R)
     if not writers:
         raise Anchor("no construction of TreapNode found")
+    may = util.allowed_writers(crate, {R.new.name}, getattr(R, "helpers", []))
+    if not any(w[0].key == R.new.key for w in writers) and any(w[0].name in may and w[3] == "aggregate" for w in writers):
+        # the node is built by a private constructor helper that new forwards to: new is judged with it inlined
+        writers = list(writers) + [(R.new, 0, None, "aggregate", None)]
     for (b, bb, idx, kind, op) in writers:
         loc = b.loc(bb, idx)
+        if b.key != R.new.key and b.name in may and b.name != R.new.name and kind == "aggregate":
+            # a private constructor helper called only from new: judged through new's inlined analysis
+            continue
         if b.key != R.new.key:
             col.violation("H3", "%s|writes-priority" % fk(b), loc, "%s writes TreapNode::priority (%s); only TreapNode::new may, with a fresh random draw" % (b.path, kind))
             continue
         if kind != "aggregate":
             col.violation("H3", "%s|writes-priority-%s" % (fk(b), kind), loc, "TreapNode::new modifies priority after construction")
             continue
-        I = util.analyse(b)
+        I = R.A(b) if hasattr(R, "A") else util.analyse(b)
         ok = False
         why = "the priority operand is not a call result"
         for st in I.final_states:
@@ -224,6 +231,8 @@ def _const_eval(t):
         return CONSTS[t]
     if t[0] == "cast" and t[1] == "IntToInt":
         return _const_eval(t[3])
+    if t[0] == "call" and str(t[1]).endswith("::from") and t[2] and "convert::From<" in str(t[1]):
+        return _const_eval(t[2][0])
     if t[0] in ("bin", "wbin") and len(t) >= 4:
         x, y = _const_eval(t[2]), _const_eval(t[3])
         if x is None or y is None:
@@ -250,8 +259,9 @@ def _entropy_bits(t, draw_pred, memo=None):
     """upper bound on the number of raw generator bits that survive in the value t (None = no draw inside)"""
     if not isinstance(t, tuple) or not t:
         return None
-    if draw_pred(t):
-        return 64
+    dp = draw_pred(t)
+    if dp:
+        return 64 if dp is True else dp
     h = t[0]
     if h == "cast" and t[1] == "IntToInt":
         b = _entropy_bits(t[3], draw_pred)
@@ -266,9 +276,10 @@ def _entropy_bits(t, draw_pred, memo=None):
         return max(0, b - k) if k is not None else 0
     if h == "bin" and t[1] == "BitAnd":
         for x, y in ((t[2], t[3]), (t[3], t[2])):
-            if y[0] == "int":
+            k = _const_eval(y)
+            if k is not None:
                 b = _entropy_bits(x, draw_pred)
-                return None if b is None else min(b, bin(y[1] & ((1 << 64) - 1)).count("1"))
+                return None if b is None else min(b, bin(k & ((1 << 64) - 1)).count("1"))
     if h == "bin" and t[1] == "Rem" and t[3][0] == "int" and t[3][1] > 0:
         b = _entropy_bits(t[2], draw_pred)
         return None if b is None else min(b, max(0, (t[3][1] - 1).bit_length()))
@@ -293,27 +304,64 @@ def rule_h3b(col, prog, crate, R, gens):
         for l in R.new.locals:
             pass
         width = 32
-    reach, _ = util.reachable_calls(prog, gens)
-    for b in reach.values():
-        if b.crate.name != crate.name:
-            continue
+    memo = {}
+
+    def fn_bits(b, depth=0):
+        """generator bits surviving in the value b returns (min over its paths); None = no draw involved"""
+        if b.key in memo:
+            return memo[b.key]
+        memo[b.key] = None
+        if depth > 6:
+            return None
         I = util.analyse(b)
+        worst = None
+        site = None
         for st in I.final_states:
-            draws = [e for e in st.event_list() if e.kind == "call" and e.extra.get("name") == "next_raw"]
-            if not draws:
-                continue
-            _note_consts(st.event_list())
-            r = util.ret_term(st)
-            rty = b.locals[0]["ty"]
-            w = {"u8": 8, "u16": 16, "u32": 32, "u64": 64, "usize": 64}.get(rty, width)
-            bits = _entropy_bits(r, lambda t: any(t == d.res for d in draws))
-            key = "%s|priority-entropy" % fk(b)
-            if bits is None:
-                continue
-            if bits >= w:
-                col.ok("H3", b.loc(draws[0].bb), key, "the returned priority keeps %d generator bits (type holds %d)" % (bits, w))
-            else:
-                col.violation("H3", key, b.loc(draws[0].bb), "the priority keeps only %d bits of the generator output although its type holds %d: with 2^%d distinct priorities ties dominate beyond ~2^%d nodes and monotone insertion orders degenerate into chains" % (bits, w, bits, bits))
+            evs = st.event_list()
+            _note_consts(evs)
+            draws = [e for e in evs if e.kind == "call" and e.extra.get("name") == "next_raw"]
+            inner = {}
+            for e in evs:
+                if e.kind != "call":
+                    continue
+                cands = []
+                tgt = prog.by_key.get((e.fn.get("resolved") or e.fn).get("def"))
+                if tgt is not None and tgt.crate.name == crate.name and tgt.key != b.key:
+                    cands.append(tgt)
+                for a in e.args:
+                    if isinstance(a, tuple) and a and a[0] == "agg" and isinstance(a[1], tuple) and a[1][0] == "closure":
+                        cb = crate.by_key.get(a[1][1])
+                        if cb is not None:
+                            cands.append(cb)
+                vals = [fn_bits(c, depth + 1) for c in cands]
+                vals = [v for v in vals if v is not None]
+                if vals:
+                    inner[e.res] = min(vals)
+
+            def pred(t):
+                if any(t == d.res for d in draws):
+                    return 64
+                return inner.get(t)
+
+            bits = _entropy_bits(util.ret_term(st), pred)
+            if bits is not None and (worst is None or bits < worst):
+                worst = bits
+                site = (draws[0].bb if draws else None)
+        memo[b.key] = worst
+        memo[(b.key, "site")] = site
+        return worst
+
+    for g in gens:
+        bits = fn_bits(g)
+        rty = g.locals[0]["ty"]
+        w = {"u8": 8, "u16": 16, "u32": 32, "u64": 64, "usize": 64}.get(rty, width)
+        key = "%s|priority-entropy" % fk(g)
+        if bits is None:
+            col.violation("H3", key, g.loc(), "cannot follow the generator output to the value %s returns" % g.path)
+        elif bits >= w:
+            col.ok("H3", g.loc(), key, "the returned priority keeps %d generator bits (type holds %d)" % (bits, w))
+        else:
+            col.violation("H3", key, g.loc(), "the priority keeps only %d bits of the generator output although its type holds %d: with 2^%d distinct priorities ties dominate beyond ~2^%d nodes and monotone insertion orders degenerate into chains" % (bits, w, bits, bits))
 
 
 def rule_h4(col, prog, rid, crate=None, draw_fns=None, sole_writer=False):
